@@ -4,6 +4,9 @@ This module provides request handler classes for processing Gemini requests
 and generating responses, including Titan upload handlers.
 """
 
+import contextlib
+import os
+import secrets
 from abc import ABC, abstractmethod
 from pathlib import Path
 from typing import TYPE_CHECKING
@@ -386,7 +389,19 @@ class FileUploadHandler(UploadHandler):
         # 6. Save file
         try:
             target.parent.mkdir(parents=True, exist_ok=True)
-            target.write_bytes(request.content)
+
+            # Write to a temporary file next to the target and move it into
+            # place, so that a failure part-way (disk full, I/O error) never
+            # leaves a truncated target or a partial new file behind
+            tmp_path = target.parent / f".upload-{secrets.token_hex(8)}.tmp"
+            try:
+                with open(tmp_path, "xb") as f:
+                    f.write(request.content)
+                os.replace(tmp_path, target)
+            except BaseException:
+                with contextlib.suppress(OSError):
+                    os.unlink(tmp_path)
+                raise
 
             return GeminiResponse(
                 status=StatusCode.SUCCESS.value,
